@@ -14,8 +14,9 @@
      sig_k1 / k2_cond the structural conditions of the two divergences of the real code
                       (KNOWN_FINDINGS C36-K1, C36-K2).
 
-   The statement of the property, "for every facts value the two paths return the same
-   decision and reason", is FALSE of the code: c36_paths_agree_refuted / c36_k1_refuted /
+   Two clauses of the property text are FALSE of the code.  "Disbanded channels first":
+   c36_disband_first_refuted (C36-K3; both paths agree, on SendBan / Ban).  "For every facts
+   value the two paths return the same decision and reason": c36_paths_agree_refuted / c36_k1_refuted /
    c36_k2_refuted (witnesses replayed on the code: corpus/C36/k*.json).  What holds is stated
    with the two exclusions as explicit hypotheses, plus c36_same_admission, which needs none. *)
 From WK Require Import Base.Base Model.ChannelId Model.Permission.
@@ -51,8 +52,10 @@ Theorem c36_same_admission : forall f : facts, ok (decide_batch f) = ok (decide_
 Proof. exact paths_same_admission. Qed.
 Print Assumptions c36_same_admission.
 
-(* fixed precedence: the returned (reason, error) is the verdict of the first failing check of
-   [precedence f]: SendBan first, then the channel's terminal state, then membership checks *)
+(* fixed precedence — the order that EXISTS in the code (not the "disbanded first" of the
+   property text, see c36_disband_first_refuted): the returned (reason, error) is the verdict of
+   the first failing check of [precedence f]: SendBan first, then (group) ChannelNotExist / Ban,
+   the channel's terminal state, then membership checks *)
 Theorem c36_precedence : forall f : facts, decide_single f = first_failing (precedence f).
 Proof. exact single_is_first_failing. Qed.
 Print Assumptions c36_precedence.
@@ -61,6 +64,61 @@ Theorem c36_precedence_batch : forall f : facts,
   k2_cond f = false -> decide_batch f = first_failing (precedence f).
 Proof. exact batch_is_first_failing. Qed.
 Print Assumptions c36_precedence_batch.
+
+(* FULL STATEMENT of the text "reasons follow a fixed precedence with disbanded channels first"
+   (false, KNOWN_FINDINGS C36-K3):
+     forall f, checked f = true -> target_disbanded f = true -> decide_single f = (ReasonDisband, ENone).
+   Refuted on both paths alike: a send-banned sender gets SendBan, a banned group reports Ban. *)
+Theorem c36_disband_first_refuted :
+  (checked k3_witness_sendban = true /\ target_disbanded k3_witness_sendban = true
+   /\ decide_single k3_witness_sendban = (ReasonSendBan, ENone)
+   /\ decide_batch k3_witness_sendban = (ReasonSendBan, ENone)
+   /\ k3_cond k3_witness_sendban = true)
+  /\ (checked k3_witness_ban = true /\ target_disbanded k3_witness_ban = true
+      /\ decide_single k3_witness_ban = (ReasonBan, ENone)
+      /\ decide_batch k3_witness_ban = (ReasonBan, ENone)
+      /\ k3_cond k3_witness_ban = true).
+Proof. exact disband_first_refuted. Qed.
+Print Assumptions c36_disband_first_refuted.
+
+(* apart from the two shadowing reasons (SendBan of a non-system uid, Ban of a group for a sender
+   that is neither system uid nor system device) and a failed read of the sender's row, Disband
+   does come first: a disbanded target never yields Success or a later reason *)
+Theorem c36_disband_first_partial : forall f : facts,
+  checked f = true -> target_disbanded f = true ->
+  decide_single f = (ReasonDisband, ENone)
+  \/ (f_sender_sys f = false /\ decide_single f = (ReasonSendBan, ENone))
+  \/ (f_type f = TGroup /\ f_sender_sys f = false /\ f_device_sys f = false
+      /\ decide_single f = (ReasonBan, ENone))
+  \/ (f_sender_sys f = false /\ r_err (f_sender f) = true
+      /\ decide_single f = (ReasonSystemError, EStore)).
+Proof. exact disbanded_outcomes. Qed.
+Print Assumptions c36_disband_first_partial.
+
+Theorem c36_disband_first_partial_batch : forall f : facts, k2_cond f = false ->
+  checked f = true -> target_disbanded f = true ->
+  decide_batch f = (ReasonDisband, ENone)
+  \/ (f_sender_sys f = false /\ decide_batch f = (ReasonSendBan, ENone))
+  \/ (f_type f = TGroup /\ f_sender_sys f = false /\ f_device_sys f = false
+      /\ decide_batch f = (ReasonBan, ENone))
+  \/ (f_sender_sys f = false /\ r_err (f_sender f) = true
+      /\ decide_batch f = (ReasonSystemError, EStore)).
+Proof. exact disbanded_outcomes_batch. Qed.
+Print Assumptions c36_disband_first_partial_batch.
+
+(* when no earlier check of the existing order fails, Disband is the reported reason *)
+Theorem c36_disband_unshadowed : forall f : facts,
+  checked f = true -> target_disbanded f = true -> shadowed f = false ->
+  decide_single f = (ReasonDisband, ENone).
+Proof. exact disband_unshadowed. Qed.
+Print Assumptions c36_disband_unshadowed.
+
+(* the monitor's K3 signature means exactly that *)
+Theorem c36_k3_signature : forall f : facts, k3_cond f = true ->
+  checked f = true /\ target_disbanded f = true
+  /\ (decide_single f = (ReasonSendBan, ENone) \/ decide_single f = (ReasonBan, ENone)).
+Proof. exact k3_cond_spec. Qed.
+Print Assumptions c36_k3_signature.
 
 (* system senders bypass only the non-terminal checks *)
 Theorem c36_system_uid_bypass : forall f : facts, checked f = true -> f_sender_sys f = true ->
@@ -150,7 +208,7 @@ Print Assumptions c36_cache_transparent.
 
 (* ---- the monitor ------------------------------------------------------------------------------------- *)
 
-(* on every trace the model produces for a batch without C36-K1 / C36-K2 items the monitor
+(* on every trace the model produces for a batch without C36-K1 / C36-K2 / C36-K3 items the monitor
    holds and the case comparison is clean; so "model = implementation on a case" + the theorems
    above imply the monitor on that case *)
 Theorem c36_model_satisfies_monitor : forall cfg tbl items,
@@ -205,7 +263,13 @@ Example c36_example_batch :
   /\ C36_monitor (model_case k1_cfg tbl items) = 0.
 Proof. vm_compute. repeat split. Qed.
 
-(* the monitor tells the known divergences (codes 2, 3) from any other disagreement (1) *)
+(* the monitor tells the known findings (codes 2, 3, 4) from any other disagreement (1) *)
+Example c36_example_monitor_k3 :
+  C36_monitor (model_case k1_cfg [(chanRead (hs "a") channelTypePerson, RR true true false false false false false);
+                                  (chanRead (hs "g") channelTypeGroup, RR true false true true false false false)]
+                         [PCmd (hs "a") (hs "d") (hs "g") channelTypeGroup false false 0]) = 4.
+Proof. exact monitor_k3_example. Qed.
+
 Example c36_example_monitor_codes :
   C36_monitor (model_case k1_cfg [(chanRead (hs "a") channelTypePerson, RR true true false false false false false);
                                   (chanRead (hs "peer") channelTypePerson, zero_result)] [k2_cmd]) = 3
